@@ -43,8 +43,9 @@ type BEOp struct {
 	TTLNs    int64  `json:"ttl_ns,omitempty"`
 	SkipRead bool   `json:"skip_read,omitempty"`
 	SleepNs  int64  `json:"sleep_ns,omitempty"`
-	Mutate   bool   `json:"mutate,omitempty"`  // overwrite the key buffer right after the call returned (C09)
-	NilVal   bool   `json:"nil_val,omitempty"` // write / store a nil interface value (untyped backends)
+	Mutate   bool   `json:"mutate,omitempty"`   // overwrite the key buffer right after the call returned (C09)
+	NilVal   bool   `json:"nil_val,omitempty"`  // write / store a nil interface value (untyped backends)
+	CtxDone  bool   `json:"ctx_done,omitempty"` // the call gets an already cancelled context (no backend result depends on it)
 }
 
 // BEScenario is the backend engine's part of a scenario.
@@ -353,6 +354,15 @@ func (r *beRun) exec(ci, oi int, op *BEOp) *beRec {
 
 	if op.SkipRead {
 		ctx = cache.WithSkipRead(ctx)
+	}
+
+	if op.CtxDone {
+		c, cancel := context.WithCancel(ctx)
+		cancel()
+
+		ctx = c
+
+		e.out.fault("ctx_cancelled_before_call")
 	}
 
 	rec.tok = Tok{K: rec.key, ID: fmt.Sprintf("w%d.%d", ci, oi)}
